@@ -272,6 +272,19 @@ def gen_c19_programs(rng, n_each):
         rt = rty[0] if len(rty) == 1 else "tuple[" + ", ".join(rty) + "]"
         src = f"@guppy\ndef main() -> {rt}:\n    {pat} = {rhs}\n    return {', '.join(rets)}\n"
         yield "unpack", src, [()], (l > 0 and r > 0) or r >= 2
+    for _ in range(n_each):  # a name on both sides of the star: bound left to right, the rightmost occurrence wins
+        l, r = rng.randrange(1, 3), rng.randrange(1, 3)
+        n = l + r + rng.randrange(0, 3)
+        left = [f"v{k}" for k in range(l)]
+        right = [rng.choice(left) if rng.random() < 0.6 else f"w{k}" for k in range(r)]
+        right[-1] = left[0]
+        distinct = list(dict.fromkeys(left + right))
+        src_kind = rng.choice(["array", "range"])
+        rhs = _lit([10 + k for k in range(n)]) if src_kind == "array" else f"range({n})"
+        rt = "tuple[" + ", ".join(["int"] * len(distinct) + [f"array[int, {n - l - r}]"]) + "]"
+        src = (f"@guppy\ndef main() -> {rt}:\n    {', '.join(left)}, *mid, {', '.join(right)} = {rhs}\n"
+               f"    return {', '.join(distinct)}, mid\n")
+        yield "unpack-dup", src, [()], True
     for _ in range(n_each):  # iteration order
         n = rng.randrange(0, 6)
         vals = [rng.randrange(1, 9) for _ in range(n)]
